@@ -550,7 +550,6 @@ def run(ctx):
                                 "the members' lon/lats%s: shape %s, expected %s; first-column lats %s, expected %s"
                                 % (ds, [d["h"] for d in o["defs"]], "" if ds is None else "[data_slice]", list(got.shape), list(want_la.shape),
                                    got[:, 0].tolist() if got.ndim == 2 and got.shape[1] else [], want_la[:, 0].tolist() if want_la.shape[1] else []), rep2)
-                continue
             if unique:
                 try:
                     grid = [[tags[(lo, la)] for lo, la in zip(rlo, rla)] for rlo, rla in zip(ll["lons"], ll["lats"])]
